@@ -18,7 +18,7 @@ EMU_OPENERS_C07 = ['emulator', 'emulator_blob']
 
 
 def gen_history(rng, m, n_ops, reader_openers=READER_OPENERS, emu_openers=EMU_OPENERS, two_threads=False,
-                xarray_ok=False, sibling_ok=False):
+                xarray_ok=False, sibling_ok=False, nudge=False):
     """ops: ['open', slot, opener] | ['close', slot] | ['call', slot, call].  Slots 0..3 readers,
     4 = the emulator, 5 = an xarray dataset, 6 = a reader on the *sibling* file (same geometry, other
     content; opener 'sib:<opener>').  With two_threads the slots are split between two caller
@@ -85,12 +85,35 @@ def gen_history(rng, m, n_ops, reader_openers=READER_OPENERS, emu_openers=EMU_OP
         c = pick_call(slot)
         if last is not None and last[1][0] == 'read_subvolume' and kind_of(slot) == 'reader' and rng.random() < 0.3:
             c = _inner_box(rng, last[1])          # a box inside the previous one
+        elif nudge and last is not None and kind_of(slot) == kind_of(last[0]) and rng.random() < 0.2:
+            c = _nudge(rng, last[1])              # the previous call with one integer argument moved a little
         ops.append(['call', slot, c])
         last = (slot, c)
     if two_threads:
         for op in ops:
             op.append(1 if op[1] in (1, 3, 6) else 0)
     return ops
+
+
+def _nudge(rng, call):
+    """The same call with one integer argument (or one bound of a slice argument) changed by +-1 or +-4:
+    neighbouring lines, traces, samples (an argument pushed out of range raises in the truth as well)."""
+    c = [list(a) if isinstance(a, list) else a for a in call]
+    spots = []
+    for i, a in enumerate(c[1:], 1):
+        if isinstance(a, int) and not isinstance(a, bool):
+            spots.append((i, None))
+        elif isinstance(a, list):
+            spots += [(i, j) for j, v in enumerate(a[:2]) if isinstance(v, int) and not isinstance(v, bool)]
+    if not spots:
+        return call
+    i, j = spots[rng.randrange(len(spots))]
+    d = rng.choice([-1, 1, -1, 1, -4, 4])
+    if j is None:
+        c[i] += d
+    else:
+        c[i][j] += d
+    return c
 
 
 def _inner_box(rng, call):
